@@ -4,8 +4,8 @@ CONSTANTS
   JAllowFallsThrough = FALSE
   TBlockInverted = FALSE
   TNo172 = FALSE
-  Devs = {"ipv6-literal-cut-at-colon", "list-items-compared-as-typed", "empty-allow-list-value-routes-nothing"}
+  Devs = {"ipv6-internal-destination-routed", "list-items-compared-as-typed", "unsupported-allow-item-raises"}
   Tier = "quick"
-  Impl = "ts"
+  Impl = "java"
 SPECIFICATION Spec
 CHECK_DEADLOCK FALSE
